@@ -124,6 +124,8 @@ func runC02(c *Ctx) {
 	} else {
 		c.Check("C02-R4", "disconnectBlock-reaches-Rollback", db.Pos(), p.reachSet(db)[roll], "wallet.disconnectBlock no longer reaches Store.Rollback")
 		checkCoupledRollback(c, "C02-R4")
+		// the same for a reorg that happened while the wallet was stopped: the startup walk finds the common block
+		checkStartupWalk(c, "C02-R4")
 		c.Check("C02-R4", "Rollback-reaches-rollback", roll.Pos(), p.reachSet(roll)[p.Func("wtxmgr", "Store", "rollback")], "Store.Rollback no longer reaches rollback")
 		// ... on every success path: block records exist only for blocks that hold a wallet transaction, so no
 		// property of the block at `height` itself can justify skipping the walk over the blocks above it
